@@ -58,5 +58,7 @@ Definition gen_ffi_entry_timestamp_none_when : string := "self.timestamp < 0".
 Definition gen_ffi_opt_load_zero_is_none : bool := true.
 Definition gen_ffi_opt_load_miss_is_error : bool := true.
 Definition gen_ffi_status_list_type_error_propagated : bool := true.
+Definition gen_ffi_u32_try_into_sites : Z := 3%Z.
+Definition gen_ffi_timestamp_none_sites : Z := 2%Z.
 Definition gen_ffi_length_checks : Z := 4%Z.
 Definition gen_ffi_error_codes : list (string * Z) := [("Success", 0%Z); ("Input", 1%Z); ("IOError", 2%Z); ("InvalidState", 3%Z); ("Unexpected", 4%Z); ("CredentialRevoked", 5%Z); ("InvalidUserRevocId", 6%Z); ("ProofRejected", 7%Z); ("RevocationRegistryFull", 8%Z)].
